@@ -295,6 +295,14 @@ def iteration_table(body, loop, counters):
             c = _core(t)
             if c[0] == 'const' and len(c) > 2 and c[2] in (0, 1) and bool(c[2]) != pol:
                 feasible = False
+            # is_some() / is_none() / is_ok() / is_err() of a value whose variant is fixed on this path
+            r = _peel(t)
+            if isinstance(r, tuple) and r and r[0] == 'call' and len(r[2]) == 1 and r[1].rsplit('::', 1)[-1] in ('is_some', 'is_none', 'is_ok', 'is_err'):
+                x = _peel(r[2][0])
+                if isinstance(x, tuple) and x and x[0] == 'agg' and x[1] == 'adt':
+                    truth = {'is_some': 'Some', 'is_none': 'None', 'is_ok': 'Ok', 'is_err': 'Err'}[r[1].rsplit('::', 1)[-1]] == x[2].rsplit('::', 1)[-1]
+                    if truth != pol:
+                        feasible = False
         if not feasible:
             continue
         delta = {}
@@ -312,7 +320,18 @@ def iteration_table(body, loop, counters):
             else:
                 delta[role] = None
         calls = [(e[1], e[2]) for e in pe.events if e[0] == 'call']
-        rows.append({'variants': pe.variants, 'atoms': pe.atoms, 'delta': delta, 'calls': calls, 'path': p, 'env': dict(pe.env)})
+        # x.is_some_and(p) taken as true  ==>  x is Some  and  p(payload of x)
+        atoms = list(pe.atoms)
+        for t, pol in pe.atoms:
+            r = _peel(t)
+            if pol is True and isinstance(r, tuple) and r and r[0] == 'call' and len(r[2]) == 2 and r[1].rsplit('::', 1)[-1] in ('is_some_and', 'is_ok_and'):
+                try:
+                    from analysis.seq import apply_fn as _apply
+                    atoms.append((('call', 'std::option::Option::is_some', (r[2][0],)), True))
+                    atoms.append((_nosite(_apply(body.facts, r[2][1], (('unwrap', r[2][0]),))), True))
+                except Exception:
+                    pass
+        rows.append({'variants': pe.variants, 'atoms': atoms, 'delta': delta, 'calls': calls, 'path': p, 'env': dict(pe.env)})
     return rows
 
 
@@ -411,3 +430,180 @@ def length_consumers(body, t):
         if any(_flows_from(body, o, t, stop) for o in ops):
             out.append(u)
     return out
+
+
+def lt_facts_at(body, bb):
+    """order facts that hold at block bb, in one orientation: [(a, b, strict)] meaning a < b (strict) or a <= b; `x > y`, `!(x <= y)`,
+    `y < x` all give (y, x, True)"""
+    from analysis.sym import cmp_facts_at
+    out = []
+    for op, a, b in cmp_facts_at(body, bb):
+        a, b = _core(a), _core(b)
+        if op == 'Lt':
+            out.append((a, b, True))
+        elif op == 'Le':
+            out.append((a, b, False))
+        elif op == 'Gt':
+            out.append((b, a, True))
+        elif op == 'Ge':
+            out.append((b, a, False))
+    return out
+
+
+def str_slice(t):
+    """(base, lo, hi) of a sub-slice expression: `s[a..b]`, `s[a..]`, `s[..b]`, `s.get(a..b).unwrap()`, `m.as_str()` of a regex Match
+    (base ('haystack', m), lo m.start(), hi m.end()); lo None = from the start, hi None = to the end; None when `t` is no slice"""
+    from analysis.sym import last_seg, peel as _peel
+    c = _nosite(_peel(t, identity=False, unwrap=True))
+    if isinstance(c, tuple) and c and c[0] == 'call' and last_seg(c[1]) == 'as_str' and 'Match' in c[1] and len(c[2]) == 1:
+        m = _core(c[2][0])
+        return ('haystack', m), ('call', 'regex::Match::start', (m,)), ('call', 'regex::Match::end', (m,))
+    c = _core(t)
+    if not isinstance(c, tuple) or not c:
+        return None
+    base = rng = None
+    if c[0] == 'call' and len(c[2]) == 2 and _re.search(r'traits::(.*::)?index$|Index::index$|::get$|get_unchecked$', c[1]):
+        base, rng = c[2]
+    elif c[0] == 'index':
+        base, rng = c[1], c[2]
+    if rng is None or not (isinstance(rng, tuple) and rng and rng[0] == 'agg'):
+        return None
+    n = rng[2]
+    if n.endswith('Range::Range') and len(rng[3]) == 2:
+        return base, rng[3][0], rng[3][1]
+    if n.endswith('RangeFrom::RangeFrom'):
+        return base, rng[3][0], None
+    if n.endswith('RangeTo::RangeTo'):
+        return base, None, rng[3][0]
+    if n.endswith('RangeFull'):
+        return base, None, None
+    return None
+
+
+def emptiness_at(body, bb, is_coll):
+    """what the guards dominating block bb say about the collection matched by `is_coll` (a predicate on core trees): True = known
+    empty, False = known non-empty, None = unknown. Recognised: `c.is_empty()` either way, `c.len()` compared with a constant
+    (`== 0`, `!= 0`, `> 0`, `>= 1`, `< 1`, ...), a `match c.len() { 0 => .., _ => .. }` arm, `c.first()/last()` being Some/None."""
+    from analysis.sym import guards_at, guard_variants, last_seg
+    res = None
+
+    def is_len(t):
+        c = _core(t)
+        return c[0] == 'call' and last_seg(c[1]) == 'len' and len(c[2]) == 1 and is_coll(_core(c[2][0]))
+
+    def const(t):
+        c = _core(t)
+        return c[2] if c[0] == 'const' and len(c) > 2 and isinstance(c[2], int) else None
+    for g in guards_at(body, bb):
+        t, pol = g.atom()
+        c = _core(t)
+        if pol is not None and c[0] == 'call' and last_seg(c[1]) == 'is_empty' and len(c[2]) == 1 and is_coll(_core(c[2][0])):
+            res = pol
+        elif pol is not None and c[0] == 'bin' and c[1] in ('Eq', 'Ne', 'Lt', 'Le', 'Gt', 'Ge'):
+            op, a, b = c[1], c[2], c[3]
+            if is_len(b) and const(a) is not None:
+                a, b = b, a
+                op = {'Lt': 'Gt', 'Le': 'Ge', 'Gt': 'Lt', 'Ge': 'Le'}.get(op, op)
+            if is_len(a) and const(b) is not None:
+                k = const(b)
+                if not pol:
+                    op = {'Eq': 'Ne', 'Ne': 'Eq', 'Lt': 'Ge', 'Ge': 'Lt', 'Gt': 'Le', 'Le': 'Gt'}[op]
+                if (op == 'Eq' and k == 0) or (op == 'Lt' and k == 1) or (op == 'Le' and k == 0):
+                    res = True
+                elif (op == 'Ne' and k == 0) or (op == 'Gt' and k >= 0) or (op == 'Ge' and k >= 1) or (op == 'Eq' and k >= 1):
+                    res = False
+        elif pol is None and is_len(t):
+            if g.values is not None:
+                res = True if g.values == {0} else (False if 0 not in g.values else res)
+            elif g.excluded is not None and 0 in g.excluded:
+                res = False
+        elif pol is None:
+            r = guard_variants(body, g)
+            if r is not None:
+                x = _core(r[0])
+                if x[0] == 'call' and last_seg(x[1]) in ('first', 'last', 'pop', 'split_first', 'split_last') and x[2] and is_coll(_core(x[2][0])) and \
+                        last_seg(x[1]) != 'pop':
+                    if set(r[1]) == {'Some'}:
+                        res = False
+                    elif set(r[1]) == {'None'}:
+                        res = True
+    return res
+
+
+def debug_only_blocks(body):
+    """blocks that only run in builds with debug assertions: dominated by the taken edge of the `if cfg!(debug_assertions)` switch a
+    debug_assert*! expands to (a SwitchInt on a literal constant whose span lies in that expansion)"""
+    out = set()
+    for t in body.terms('switch'):
+        if not debug_only(t):
+            continue
+        if not (t.discr.is_const() and t.discr.int_value() is not None):
+            d = _core(_sym(body, t.discr))
+            if not (d[0] == 'const' and len(d) > 2 and d[2] in (0, 1)):
+                continue
+        for w in body.succ[t.bb]:
+            if body.blocks[w].cleanup:
+                continue
+            out |= dominated_by_edge(body, (t.bb, w))
+    return out
+
+
+def debug_only_mutations(body):
+    """calls inside debug-only blocks that take `&mut` of something that lives outside them (a named local, a parameter, a field):
+    [(term, receiver tree)] -- the state change disappears from release builds together with the assertion"""
+    region = debug_only_blocks(body)
+    out = []
+    if not region:
+        return out
+    for t in body.terms('call'):
+        if t.bb not in region or not t.args or t.args[0].place is None:
+            continue
+        if not body.local_ty(t.args[0].place.local).startswith('&mut'):
+            continue
+        r = _core(_sym(body, t.args[0]))
+        base = r
+        while isinstance(base, tuple) and base and base[0] in ('field', 'index', 'variant', 'unwrap'):
+            base = base[1]
+        outside = False
+        if isinstance(base, tuple) and base and base[0] in ('arg', 'upvar'):
+            outside = True
+        elif isinstance(base, tuple) and base and base[0] == 'var' and len(base) > 2:
+            whole, partial = _defs_of(body, base[2])
+            outside = any(d.bb not in region for d in whole)
+        if outside:
+            out.append((t, r))
+    return out
+
+
+def full_traversal(ctx, body, src_pat, key, what):
+    """the loops of `body` that iterate a source matching `src_pat` (pattern over the core of the iterator expression) are left only
+    when the source is exhausted or towards an error return / panic: every element is visited before a result is returned.
+    Returns the number of loops checked."""
+    from analysis.seq import next_call_of, iter_init
+    from analysis.sym import variant_edges, ret_values, peel as _peel, last_seg
+    from analysis.pat import has as _has
+    n = 0
+    for lp in cfg.loops(body):
+        nx = next_call_of(body, lp)
+        if nx is None:
+            continue
+        src = iter_init(body, _sym(body, nx.args[0]))
+        if not _has(_core(src), src_pat):
+            continue
+        n += 1
+        none = {(e[0], e[1]) for e in variant_edges(body, _sym(body, nx.dest), 'None')}
+        rets = ret_values(body)
+        for (u, v) in lp.exits(body):
+            if (u, v) in none:
+                continue
+            reach = cfg.reach_const(body, v)
+            vals = [_peel(x) for x, bb in rets if bb in reach]
+            has_ret = any(body.blocks[x].term.kind == 'return' for x in reach)
+            errlike = lambda x: isinstance(x, tuple) and x and ((x[0] == 'agg' and x[1] == 'adt' and (x[2].endswith('Result::Err') or x[2].endswith('Option::None')))
+                                                                or (x[0] == 'call' and last_seg(x[1]) == 'from_residual'))
+            ok = (not has_ret) or (bool(vals) and all(errlike(x) for x in vals))
+            ctx.require(ok, body, key + '|' + norm_path(body.path).rsplit('::', 1)[-1], '%s: the loop is left early only towards an error' % what,
+                        '%s: the loop over the input can be left at line %d before the input is exhausted and a result is still returned: the remaining elements are '
+                        'silently dropped' % (what, body.blocks[u].term.span['line']), body.blocks[u].term.span)
+        ctx.ok(body, '%s: loop at line %d visits every element' % (what, body.blocks[lp.header].term.span['line']), body.blocks[lp.header].term.span)
+    return n
